@@ -209,6 +209,12 @@ def assembly(cx, rep, seg, mid):
         r = a.ret
         K = ('seq', 'ks0n')
         N = ('len', K)
+        # the property holds "for at least three knots": nothing from three knots on may be rejected
+        rej = length_rejections(it, K)
+        rep.ob('domain', inst, all(c is not None and c <= 3 for c in rej),
+               'rejects only fewer than %s knots' % (sorted(set(rej)) or ['-']), fn=inst, file=file, line=line,
+               msg='constrained_spline panics for inputs the property covers (three or more knots): it rejects len < %s' % sorted(set(x for x in rej if x is not None)) if all(x is not None for x in rej) else
+                   'constrained_spline has an explicit panic that is not a plain minimum-length check')
         seq = r.fields[0].seq if isinstance(r, Struct) and r.path == 'piecewise::Piecewise' and isinstance(r.fields[0], VecV) else None
         if seg is None or mid is None:
             rep.ob('align', inst, False, 'segment/f_dx could not be analysed', fn=inst, file=file, line=line)
@@ -527,5 +533,6 @@ def check(cx):
     rep.floor('align', 6)
     rep.floor('ends', 2)
     rep.floor('count', 1)
+    rep.floor('domain', 1)
     rep.floor('end', 2)
     return rep
